@@ -39,7 +39,7 @@ type lout struct {
 	msg      string
 }
 
-func lrace(seed uint64, pool [][32]byte) {
+func lrace(seed uint64, pool [][32]byte, stress bool) hv.Case {
 	r := hv.NewRand(seed)
 	w := ax.NewWorld(pool)
 	defer w.Close()
@@ -63,8 +63,14 @@ func lrace(seed uint64, pool [][32]byte) {
 		add()
 	}
 	n := 2 + r.Intn(3)
+	if stress { // judged by the specification oracle only: too many interleavings for the model search
+		pre, n = 2, 12+r.Intn(8)
+		progs = nil
+		add()
+		add()
+	}
 	for i := 0; i < n; i++ {
-		if r.Chance(65) {
+		if r.Chance(65) || (stress && r.Chance(60)) {
 			u, k := pick()
 			progs = append(progs, lprog{Login: true, User: u, Key: k})
 		} else {
@@ -94,6 +100,9 @@ func lrace(seed uint64, pool [][32]byte) {
 		runOne(i)
 	}
 	procs := hv.Pick(r, []int{1, 2, 4, 8})
+	if stress {
+		procs = hv.Pick(r, []int{4, 8, 16})
+	}
 	old := runtime.GOMAXPROCS(procs)
 	start := make(chan struct{})
 	var wg sync.WaitGroup
@@ -203,11 +212,15 @@ func lrace(seed uint64, pool [][32]byte) {
 		}
 	}
 	d := strings.Join(desc, " || ") + fmt.Sprintf(" ; GOMAXPROCS=%d", procs)
-	hv.Emit(hv.Case{Fn: "c05_lrace_ok",
+	c := hv.Case{Fn: "c05_lrace_ok",
 		Coq:   "(" + hv.Tuple(hv.Ni(pre)+"%nat", hv.List(ps), hv.List(res), hv.List(probes)) + " : lrace_case)",
 		Class: "login-race", Desc: d, Spec: verd.OK, Sig: verd.Sig, What: verd.What, NT: nt,
 		Key:    fmt.Sprintf("%d %s", seed, d),
-		Replay: map[string]interface{}{"goroutines": desc}})
+		Replay: map[string]interface{}{"goroutines": desc}}
+	if stress {
+		c.Fn, c.Coq, c.Class = "", "", "login-race-stress"
+	}
+	return c
 }
 
 func gvTerm(g ax.GView) string {
@@ -225,7 +238,21 @@ func lraceCases(r *hv.Rand, pool [][32]byte) []func() {
 	var cases []func()
 	for i, n := 0, hv.Scale(200, 3000); i < n; i++ {
 		seed := r.U64()
-		cases = append(cases, func() { lrace(seed, pool) })
+		cases = append(cases, func() { hv.Emit(lrace(seed, pool, false)) })
+	}
+	// many goroutines, repeated: first failing repetition (or the last one) is reported
+	for i, n := 0, hv.Scale(16, 200); i < n; i++ {
+		seed := r.U64()
+		cases = append(cases, func() {
+			rr := hv.NewRand(seed)
+			var c hv.Case
+			for k, reps := 0, hv.Scale(40, 400); k < reps; k++ {
+				if c = lrace(rr.U64(), pool, true); !c.Spec {
+					break
+				}
+			}
+			hv.Emit(c)
+		})
 	}
 	return cases
 }
